@@ -599,8 +599,13 @@ func query(input OmegaInput) (output OmegaOutput) {
 		pvmLogger.Debugf("host-call function \"query\" serviceID : %d not in ServiceAccount state", serviceID)
 	}
 	lookupKey := types.LookupMetaMapkey{Hash: types.OpaqueHash(h), Length: types.U32(z)} // x_bold{s}_l
+	// preimage lengths are 32-bit: a register value of 2^32 or more is the length of no record
+	validLength := z < (1 << 32)
 	var timeSlotSet types.TimeSlotSet
-	lookupTimeSlotSet := getLookupItemFromKeyVal(input.Addition.ResultContextX.StorageKeyVal, serviceID, lookupKey)
+	var lookupTimeSlotSet []byte
+	if validLength {
+		lookupTimeSlotSet = getLookupItemFromKeyVal(input.Addition.ResultContextX.StorageKeyVal, serviceID, lookupKey)
+	}
 	if lookupTimeSlotSet != nil {
 		decoder := types.NewDecoder()
 		err := decoder.Decode(lookupTimeSlotSet, &timeSlotSet)
@@ -614,7 +619,7 @@ func query(input OmegaInput) (output OmegaOutput) {
 	}
 
 	lookupData, lookupDataExists := account.LookupDict[lookupKey]
-	if lookupDataExists {
+	if lookupDataExists && validLength {
 		// a = lookupData[h,z]
 		switch len(lookupData) {
 		case 0:
@@ -770,6 +775,14 @@ func forget(input OmegaInput) (output OmegaOutput) {
 	timeslot := input.Addition.Timeslot
 	// x_bold{s} = (x_u)_d[x_s] check service exists
 	if a, accountExists := input.Addition.ResultContextX.PartialState.ServiceAccounts[serviceID]; accountExists {
+		if z >= (1 << 32) {
+			// preimage lengths are 32-bit: no record has this length
+			input.VM.Registers[7] = HUH
+			return OmegaOutput{
+				ExitReason: ExitContinue,
+				Addition:   input.Addition,
+			}
+		}
 		lookupKey := types.LookupMetaMapkey{Hash: types.OpaqueHash(h), Length: types.U32(z)} // x_bold{s}_l
 		// check lookupItem from key-val
 		var timeSlotSet types.TimeSlotSet
